@@ -24,6 +24,7 @@ func init() {
 					Type: "placer",
 					Text: "The place to decrement.",
 				},
+				{Name: "&optional"},
 				{
 					Name: "delta-form",
 					Type: "object",
